@@ -5,7 +5,7 @@ set -e
 REPO=${VP_RUN_REPO:?needs --with-repo}
 N=${1:-400}; SEED=${2:-7}; RES=${3:-/verif/work/mutation_results.jsonl}
 sed -i "s#\"/repo#\"$REPO#g" harness/Cargo.toml
-export VERIF_REPO=$REPO CARGO_NET_OFFLINE=true MUT_REVERSE=${4:-}
+export VERIF_REPO=$REPO CARGO_NET_OFFLINE=true MUT_REVERSE=${4:-} VERIF_NO_CHANGECOV=1
 ./setup.sh > work_setup.log 2>&1 || { tail -20 work_setup.log; exit 1; }
 (cd $REPO && cargo test --workspace --no-fail-fast --offline -q > /dev/null 2>&1 || echo "baseline suite fails?")
 python3 tools/mutate.py gen $REPO work/mutants.json $N $SEED
